@@ -264,7 +264,27 @@ def _splat_literal_tuples(tree: ast.AST) -> bool:
             elts = sts[0].value.elts
             # the element names must not be rebound anywhere after (conservatively: bound at most once in the function, or parameters)
             if any(isinstance(e, ast.Name) and nstore.get(e.id, 0) > 1 for e in elts):
-                continue
+                # .. or, when the tuple is splatted in the same block with no store to an element in between, right there
+                ok_local = False
+                enames = {e.id for e in elts if isinstance(e, ast.Name)}
+                for owner in ast.walk(fn):
+                    for fld in ("body", "orelse", "finalbody"):
+                        blk = getattr(owner, fld, None)
+                        if not (isinstance(blk, list) and any(x is sts[0] for x in blk)):
+                            continue
+                        k0 = next(i for i, x in enumerate(blk) if x is sts[0])
+                        uses = [n for n in ast.walk(fn) if isinstance(n, ast.Name) and n.id == t and isinstance(n.ctx, ast.Load)]
+                        for j in range(k0 + 1, len(blk)):
+                            inside = {id(n) for n in ast.walk(blk[j])}
+                            if any(isinstance(x, ast.Name) and isinstance(x.ctx, (ast.Store, ast.Del)) and x.id in enames for x in ast.walk(blk[j])):
+                                break
+                            if all(id(u) in inside for u in uses) and uses and isinstance(blk[j], (ast.Assign, ast.Expr, ast.Return, ast.AnnAssign)):
+                                ok_local = True
+                                break
+                            if any(id(u) in inside for u in uses):
+                                break
+                if not ok_local:
+                    continue
             for c in ast.walk(fn):
                 if isinstance(c, ast.Call) and any(isinstance(a, ast.Starred) and isinstance(a.value, ast.Name) and a.value.id == t for a in c.args):
                     new_args = []
@@ -416,6 +436,27 @@ def _unroll_literal_loops(tree: ast.AST) -> None:
                             and all(isinstance(e_, (ast.Name, ast.Constant, ast.Attribute)) for e_ in x.value.elts):
                         local_tables.setdefault(id(lp), {})[tg_.id] = x.value
 
+    # locals bound exactly once to a dict literal and read exactly once, as `D.items()` at a loop head
+    dict_tables: Dict[int, Dict[str, ast.AST]] = {}
+    for fn in ast.walk(tree):
+        if not isinstance(fn, (ast.FunctionDef, ast.AsyncFunctionDef)):
+            continue
+        st_: Dict[str, int] = {}
+        ld_: Dict[str, int] = {}
+        for x in ast.walk(fn):
+            if isinstance(x, ast.Name):
+                if isinstance(x.ctx, ast.Store):
+                    st_[x.id] = st_.get(x.id, 0) + 1
+                else:
+                    ld_[x.id] = ld_.get(x.id, 0) + 1
+        for x in ast.walk(fn):
+            tg_ = x.targets[0] if isinstance(x, ast.Assign) and len(x.targets) == 1 else (x.target if isinstance(x, ast.AnnAssign) else None)
+            if isinstance(tg_, ast.Name) and isinstance(getattr(x, "value", None), ast.Dict) and st_.get(tg_.id) == 1 and ld_.get(tg_.id) == 1:
+                for lp in ast.walk(fn):
+                    if isinstance(lp, ast.For) and isinstance(lp.iter, ast.Call) and isinstance(lp.iter.func, ast.Attribute) and lp.iter.func.attr == "items" \
+                            and isinstance(lp.iter.func.value, ast.Name) and lp.iter.func.value.id == tg_.id:
+                        dict_tables.setdefault(id(lp), {})[tg_.id] = x.value
+
     # module-level tuples / lists of literals bound once (dispatch tables)
     mod_tables: Dict[str, ast.AST] = {}
     if isinstance(tree, ast.Module):
@@ -454,6 +495,15 @@ def _unroll_literal_loops(tree: ast.AST) -> None:
             it = tables.get(id(n), n.iter)
             if isinstance(it, ast.Name) and it.id in mod_tables:
                 it = mod_tables[it.id]
+            # `for k, v in {..}.items()` / `for k, v in D.items()` with D a local bound once to a dict literal and read only here:
+            # the (key, value) pairs in the order written
+            if isinstance(it, ast.Call) and isinstance(it.func, ast.Attribute) and it.func.attr == "items" and not it.args and not it.keywords:
+                d_ = it.func.value
+                if isinstance(d_, ast.Name) and d_.id in dict_tables.get(id(n), {}):
+                    dead.add(d_.id)
+                    d_ = dict_tables[id(n)][d_.id]
+                if isinstance(d_, ast.Dict) and all(k_ is not None for k_ in d_.keys):
+                    it = ast.copy_location(ast.Tuple(elts=[ast.Tuple(elts=[k_, v_], ctx=ast.Load()) for k_, v_ in zip(d_.keys, d_.values)], ctx=ast.Load()), it)
             # the search idiom `for k, v in TABLE: if TEST: break  [else: DEFAULT]`: a chain of tests, the loop variables keeping the
             # values of the first row that matched
             if isinstance(it, (ast.Tuple, ast.List)) and 1 <= len(it.elts) <= 8 and len(n.body) == 1 and isinstance(n.body[0], ast.If) and not n.body[0].orelse \
@@ -521,12 +571,12 @@ def _unroll_literal_loops(tree: ast.AST) -> None:
     if dead:
         class D(ast.NodeTransformer):
             def visit_Assign(self, x):
-                if len(x.targets) == 1 and isinstance(x.targets[0], ast.Name) and x.targets[0].id in dead and isinstance(x.value, (ast.Tuple, ast.List)):
+                if len(x.targets) == 1 and isinstance(x.targets[0], ast.Name) and x.targets[0].id in dead and isinstance(x.value, (ast.Tuple, ast.List, ast.Dict)):
                     return ast.copy_location(ast.Pass(), x)
                 return x
 
             def visit_AnnAssign(self, x):
-                if isinstance(x.target, ast.Name) and x.target.id in dead and isinstance(x.value, (ast.Tuple, ast.List)):
+                if isinstance(x.target, ast.Name) and x.target.id in dead and isinstance(x.value, (ast.Tuple, ast.List, ast.Dict)):
                     return ast.copy_location(ast.Pass(), x)
                 return x
         D().visit(tree)
